@@ -777,3 +777,65 @@ func callsUnit(f *core.FuncInfo, unit *core.FuncInfo) func(*ast.CallExpr) bool {
 		return fn == unit.Obj
 	}
 }
+
+// swappedArgSites: call sites in the given packages (callee declared in calleePkgs) where an argument is named like a
+// different, same-typed parameter of the callee while the argument in that parameter's position is not: the classic
+// transposition of two ids of one type. Returns all compared sites and, per site, a description when it is suspicious.
+func swappedArgSites(p *core.Prog, pkgs, calleePkgs []string) (sites []site, bad map[*core.Event]string) {
+	bad = map[*core.Event]string{}
+	inCallee := map[string]bool{}
+	for _, r := range calleePkgs {
+		inCallee[r] = true
+	}
+	argName := func(x ast.Expr) string {
+		switch a := ast.Unparen(x).(type) {
+		case *ast.Ident:
+			return strings.ToLower(a.Name)
+		case *ast.SelectorExpr:
+			return strings.ToLower(a.Sel.Name)
+		}
+		return ""
+	}
+	for _, rel := range pkgs {
+		for _, f := range p.FuncsIn(rel) {
+			if f.Body == nil {
+				continue
+			}
+			for _, e := range f.Graph().Events {
+				if e.Kind != core.EvCall || e.Call == nil {
+					continue
+				}
+				fn, ok := e.Callee.(*types.Func)
+				if !ok || fn.Pkg() == nil || !inCallee[core.Rel(fn.Pkg().Path())] {
+					continue
+				}
+				sig, ok := fn.Type().(*types.Signature)
+				if !ok || sig.Variadic() || sig.Params().Len() != len(e.Call.Args) || sig.Params().Len() < 2 {
+					continue
+				}
+				compared := false
+				for i := 0; i < sig.Params().Len(); i++ {
+					for j := 0; j < sig.Params().Len(); j++ {
+						pi, pj := sig.Params().At(i), sig.Params().At(j)
+						if i == j || !types.Identical(pi.Type(), pj.Type()) || pi.Name() == "" || pj.Name() == "" || pi.Name() == "_" || pj.Name() == "_" {
+							continue
+						}
+						if _, basic := pi.Type().Underlying().(*types.Basic); !basic {
+							continue
+						}
+						compared = true
+						ai, aj := argName(e.Call.Args[i]), argName(e.Call.Args[j])
+						ni, nj := strings.ToLower(pi.Name()), strings.ToLower(pj.Name())
+						if ai != "" && ai == nj && ai != ni && aj != nj {
+							bad[e] = fmt.Sprintf("argument %q is passed for parameter %q of %s although the callee has a parameter %q of the same type, which receives %q", core.ExprStr(e.Call.Args[i]), pi.Name(), fn.Name(), pj.Name(), core.ExprStr(e.Call.Args[j]))
+						}
+					}
+				}
+				if compared {
+					sites = append(sites, site{Fn: f, Ev: e, Callee: core.CalleeName(e)})
+				}
+			}
+		}
+	}
+	return sites, bad
+}
